@@ -308,7 +308,7 @@ def model_configs():
                                                                  policy_kwargs=dict(net_arch=[4])), 16, "bytesio", None, None),
         ("ppo-custom-optimizer", "PPO", "box", lambda: dict(n_steps=8, batch_size=8, n_epochs=1, policy_kwargs=dict(net_arch=dict(pi=[4], vf=[4]), optimizer_class=th.optim.RMSprop,
                                                             optimizer_kwargs=dict(alpha=0.9, eps=1e-5))), 8, "str", ["tensorboard_log"], ["_vec_normalize_env"]),
-        ("dqn-after-learn", "DQN", "discrete", lambda: dict(target_update_interval=4, exploration_fraction=0.5, policy_kwargs=dict(net_arch=[4]), **off), 24, "str", None, None),
+        ("dqn-after-learn", "DQN", "discrete", lambda: dict(target_update_interval=4, exploration_fraction=0.5, policy_kwargs=dict(net_arch=[4]), **off), 24, "str", None, ["replay_buffer"]),
         ("dqn-her", "DQN", "her", lambda: dict(target_update_interval=4, policy_kwargs=dict(net_arch=[4]), **off), 20, "pathlib", None, None),
         ("sac-learned-entropy", "SAC", "box", lambda: dict(ent_coef="auto", policy_kwargs=dict(net_arch=[4]), **off), 20, "bytesio", None, None),
         ("sac-fixed-entropy-gsde", "SAC", "box", lambda: dict(ent_coef=0.2, use_sde=True, policy_kwargs=dict(net_arch=[4]), **off), 0, "str", None, None),
